@@ -89,11 +89,13 @@ func (bitSet BitSetMem) exportBinary() (uint, []byte, error) {
 
 // Import imports the marshalled json in the byte array data into the redis bitset
 func (bitSet *BitSetMem) unmarshal(data []byte) (bool, error) {
-	err := bitSet.set.UnmarshalJSON(data)
-	bitSet.size = bitSet.set.Len()
+	set := &bitset.BitSet{}
+	err := set.UnmarshalJSON(data)
 	if err != nil {
 		return false, err
 	}
+	bitSet.set = set
+	bitSet.size = bitSet.set.Len()
 	return true, nil
 }
 
